@@ -24,7 +24,7 @@ func init() {
 			"C20.hooks: Before precedes and After follows the marshal call, both through callForCase, both results asserted with NoError, a failure skips the case. " +
 			"C20.safe: the user's Marshal*/Unmarshal* method is invoked only inside a function with a deferred recover whose result is turned into the returned error; callForCase protects the hooks the same way. " +
 			"C20.verdict: with an error predicate: the predicate is invoked with (t, the obtained error, info) and, on true, an emptiness assertion on the produced data/value follows; without: NoError on the obtained error and, on true, an equality assertion between the case's expectation and the produced data/value; every assertion receives the helper's t. " +
-			"C20.pred: each error predicate calls the assertion its name promises.",
+			"C20.pred: each error predicate calls the assertion its name promises (assertion), and can answer false only where an assertion on t is known to have failed — the returned value is an assertion's own result, or the return lies behind the false edge of one, or behind assert.Fail (reports).",
 		NotDecided:  []string{"testify's assertion semantics", "behaviour when T is itself an interface type"},
 		Assumptions: []string{"assert.NoError/Equal/Nil/Empty/Error report a failure on t exactly when their condition does not hold and return false then"},
 		Technique:   "must-call / dominance / argument-dataflow obligations over go/ssa, applied uniformly to sibling implementations",
@@ -49,7 +49,7 @@ func runC20(e *Env) {
 	for _, r := range []string{"C20.iface", "C20.dir", "C20.hooks", "C20.safe", "C20.verdict"} {
 		e.S.Floor(r, 6)
 	}
-	e.S.Floor("C20.pred", 5)
+	e.S.Floor("C20.pred", 10)
 }
 
 func calleeName(c *ssa.CallCommon) string {
@@ -623,6 +623,14 @@ func ruleC20Pred(e *Env) {
 			}
 		}
 	}
+	// reports: a predicate may answer false only where an assertion on t is known to have failed (and so reported)
+	for _, name := range []string{"Error", "ErrorHasPrefix", "ErrorHasSuffix", "ErrorMatch"} {
+		if fn := e.Fn(rule, "test", name); fn != nil {
+			if cl := closureOf(fn); cl != nil {
+				predReports(e, rule, "test."+name, cl)
+			}
+		}
+	}
 	// AnyError: package-level variable initialised with a closure calling assert.Error
 	if g := e.Var(rule, "test", "AnyError"); g != nil {
 		var init *ssa.Function
@@ -645,8 +653,101 @@ func ruleC20Pred(e *Env) {
 		}
 		if init != nil && hasCall(init, "github.com/stretchr/testify/assert.Error") != nil {
 			e.S.Ok(rule, "test.AnyError", "assertion", "AnyError asserts that an error is present", "")
+			predReports(e, rule, "test.AnyError", init)
 		} else {
 			e.S.Bad(rule, "test.AnyError", "assertion", "AnyError does not call assert.Error", "", "")
 		}
+	}
+}
+
+// isAssertOnT: v is the result of a testify assert.* call whose first argument is the closure's t parameter.
+func isAssertOnT(cl *ssa.Function, v ssa.Value) *ssa.Call {
+	c, ok := flow.Strip(v).(*ssa.Call)
+	if !ok || len(cl.Params) == 0 || len(c.Call.Args) == 0 {
+		return nil
+	}
+	if !strings.HasPrefix(calleeName(&c.Call), "github.com/stretchr/testify/assert.") {
+		return nil
+	}
+	if !derivesFrom(c.Call.Args[0], cl.Params[0]) {
+		return nil
+	}
+	return c
+}
+
+// failedAssertDominates: block b is only reachable after an assertion on t returned false, or after assert.Fail/FailNow.
+func failedAssertDominates(cl *ssa.Function, b *ssa.BasicBlock) bool {
+	for _, d := range cl.Blocks {
+		if !d.Dominates(b) {
+			continue
+		}
+		for _, in := range d.Instrs {
+			if c, ok := in.(*ssa.Call); ok {
+				n := calleeName(&c.Call)
+				if (n == "github.com/stretchr/testify/assert.Fail" || n == "github.com/stretchr/testify/assert.FailNow") && isAssertOnT(cl, c) != nil {
+					return true
+				}
+			}
+		}
+		iff, ok := d.Instrs[len(d.Instrs)-1].(*ssa.If)
+		if !ok || isAssertOnT(cl, iff.Cond) == nil {
+			continue
+		}
+		els := d.Succs[1]
+		if len(els.Preds) == 1 && els.Dominates(b) && d.Succs[0] != els {
+			return true
+		}
+	}
+	return false
+}
+
+// predReports: every return of the predicate closure that may be false is either the result of an assertion on t
+// (which reports exactly when it is false) or lies behind a failed assertion.
+func predReports(e *Env, rule, site string, cl *ssa.Function) {
+	var bad []string
+	n := 0
+	var check func(v ssa.Value, at *ssa.BasicBlock, pos string, depth int)
+	check = func(v ssa.Value, at *ssa.BasicBlock, pos string, depth int) {
+		switch x := v.(type) {
+		case *ssa.Const:
+			if x.Value != nil && x.Value.String() == "true" {
+				return
+			}
+			if !failedAssertDominates(cl, at) {
+				bad = append(bad, pos)
+			}
+		case *ssa.Phi:
+			if depth > 4 {
+				bad = append(bad, pos+" (phi too deep)")
+				return
+			}
+			for i, ed := range x.Edges {
+				check(ed, x.Block().Preds[i], pos, depth+1)
+			}
+		default:
+			if isAssertOnT(cl, v) != nil {
+				return
+			}
+			bad = append(bad, pos+" (value not an assertion result)")
+		}
+	}
+	for _, b := range cl.Blocks {
+		if len(b.Instrs) == 0 {
+			continue
+		}
+		r, ok := b.Instrs[len(b.Instrs)-1].(*ssa.Return)
+		if !ok || len(r.Results) != 1 {
+			continue
+		}
+		n++
+		check(r.Results[0], b, e.posOf(r), 0)
+	}
+	switch {
+	case n == 0:
+		e.S.Unk(rule, site, "reports", "no return found in the predicate closure", e.Pos(cl))
+	case len(bad) > 0:
+		e.S.Bad(rule, site, "reports", "the predicate can answer false without any assertion on t having failed, so an unmet predicate is not reported: return at "+strings.Join(bad, ", "), e.Pos(cl), "")
+	default:
+		e.S.Ok(rule, site, "reports", fmt.Sprintf("%d returns: each is an assertion's own result, a constant true, or lies behind a failed assertion on t", n), e.Pos(cl))
 	}
 }
